@@ -492,6 +492,49 @@ pub fn worker(w: &mut Worker) {
             }
         }
     }
+    // script files whose bare names spell options, option letters or other things the tool knows: a file
+    // given by name is run as a file (alone, and with a further argument behind it)
+    {
+        let named = dir.join("named");
+        let _ = std::fs::create_dir_all(&named);
+        for name in ["version", "help", "h", "e", "eval", "l", "lint", "script", "Version", "e.ds", "lint.ds", "true", "0"] {
+            for (kind, text) in [("succeeding", "echo RUNS from the file\nx = set 1"), ("failing", "echo RUNS before\nexit 3"), ("unparsable", "echo \"unterminated")] {
+                for extra in [None, Some("other.ds"), Some("echo extra")] {
+                    if !w.take() {
+                        continue;
+                    }
+                    let cj = json!({"kind": "named-file", "name": name, "script": text, "extra": extra, "class": kind});
+                    w.begin(|| cj.clone());
+                    std::fs::write(named.join(name), text).expect("write");
+                    std::fs::write(named.join("other.ds"), "echo RUNS the other file").expect("write");
+                    let mut args: Vec<&str> = vec![name];
+                    if let Some(x) = extra {
+                        args.push(x);
+                    }
+                    let d = run_proc(&duck, &args, &named);
+                    let l = run_proc(&me, &["libref", "file", name], &named);
+                    let _ = std::fs::remove_file(named.join(name));
+                    w.add_transitions(2);
+                    match (d, l) {
+                        (Ok(d), Ok(l)) => {
+                            let lib_ok = l.code == Some(0);
+                            let expect_out = if lib_ok { l.stdout.clone() } else { format!("{}Error: {}\n", l.stdout, l.stderr) };
+                            if (d.code == Some(0)) != lib_ok || d.stdout != expect_out {
+                                w.fail(
+                                    &format!("named-file:{}", kind),
+                                    &format!("duck {:?} (a {} script file of that name in the working directory): exit {:?}, output {:?}; the library run of the file {} and prints {:?}", args, kind, d.code, d.stdout, if lib_ok { "succeeds" } else { "fails" }, expect_out),
+                                    cj,
+                                );
+                            } else {
+                                w.pass(true, hash64(&("named-file", kind, extra.is_some())));
+                            }
+                        }
+                        (a, b) => w.fail("harness:spawn", &format!("{:?} {:?}", a.err(), b.err()), cj),
+                    }
+                }
+            }
+        }
+    }
     // files with relative includes, started from a directory that is not theirs (a file of the same
     // relative name exists there too, clean where the real one is not and the other way round)
     {
@@ -584,6 +627,18 @@ pub fn replay(case: &Value) -> Result<String, String> {
                 run_proc(&duck, &[form, text], &dir)?
             }
         }
+        "named-file" => {
+            let named = dir.join("named");
+            let _ = std::fs::create_dir_all(&named);
+            let name = case["name"].as_str().unwrap_or("script");
+            std::fs::write(named.join(name), case["script"].as_str().unwrap_or("")).map_err(|e| e.to_string())?;
+            std::fs::write(named.join("other.ds"), "echo RUNS the other file").map_err(|e| e.to_string())?;
+            let mut args: Vec<&str> = vec![name];
+            if let Some(x) = case["extra"].as_str() {
+                args.push(x);
+            }
+            run_proc(&duck, &args, &named)?
+        }
         "relative-include" => {
             let inc = dir.join("inc");
             write_inc_files(&inc);
@@ -619,7 +674,7 @@ pub fn crash_sig(_case: &Value, kind: &str) -> String {
     kind.to_string()
 }
 
-pub const RULE: &str = "57 scripts (succeeding, printing, failing by crash / unknown command / missing label / assert, exit with no value, 0, 3, -1, 255, 256, 257, 512, -256, 65536, i32::MAX, i32::MIN, abc, ' 3', a value beyond i32, every parse error kind, pre-processor print and missing include, output of child processes interleaved with the script's own, exit_on_error at top level, in a function and inside a script-implemented command) x invocation form {file argument, -e text, --eval text}: the duck executable built from /repo's working tree is run as a subprocess and compared with the library run by the harness in a second subprocess (default Env): exit status 0 exactly when the library run succeeds; stdout equals the library's stdout, followed on failure by 'Error: <display of the library error>'. Lint: label x command x output each in {absent, lower-case, Capitalised, mIxed_1, non-ASCII upper-case} x {parsable, with an unparsable later line} x {-l, --lint} (thorough: the line at the end, at the start and in the middle of the file): accepted exactly when the file parses and the three spellings are lower-case, never runs the script, prints 'Error:' on rejection. --version, --help, -h: exit 0 and the documented content. Thorough tier in addition: `exit N` for every N in -600..=600, and every script of 1..4 lines over a pool of 14 lines (printing, assigning, soft error, exit_on_error, failing command, unknown command, exit / exit 2 / exit 256, failed assert, forward goto, unterminated function, unparsable line, pre-processor print) closed by a label line. Scale cases (file form): a loop printing 5000 (thorough 100000) lines, a script file of that many lines, the same failing / not parsing on its last line (output and message must match to the byte). Every subprocess is killed after 20 s (reported as a violation when it is duck that does not exit). Includes: 11 files that include other files by absolute path (once, twice, diamonds, nested twice, broken, self-including) through the three run forms (against the library) and lint (accepted iff everything parses); 4 roots with relative includes started from 3 directories, one of which holds decoy files of the same relative names (run against the library; lint accepted iff the real files parse and are lower case)";
+pub const RULE: &str = "57 scripts (succeeding, printing, failing by crash / unknown command / missing label / assert, exit with no value, 0, 3, -1, 255, 256, 257, 512, -256, 65536, i32::MAX, i32::MIN, abc, ' 3', a value beyond i32, every parse error kind, pre-processor print and missing include, output of child processes interleaved with the script's own, exit_on_error at top level, in a function and inside a script-implemented command) x invocation form {file argument, -e text, --eval text}: the duck executable built from /repo's working tree is run as a subprocess and compared with the library run by the harness in a second subprocess (default Env): exit status 0 exactly when the library run succeeds; stdout equals the library's stdout, followed on failure by 'Error: <display of the library error>'. Lint: label x command x output each in {absent, lower-case, Capitalised, mIxed_1, non-ASCII upper-case} x {parsable, with an unparsable later line} x {-l, --lint} (thorough: the line at the end, at the start and in the middle of the file): accepted exactly when the file parses and the three spellings are lower-case, never runs the script, prints 'Error:' on rejection. --version, --help, -h: exit 0 and the documented content. Thorough tier in addition: `exit N` for every N in -600..=600, and every script of 1..4 lines over a pool of 14 lines (printing, assigning, soft error, exit_on_error, failing command, unknown command, exit / exit 2 / exit 256, failed assert, forward goto, unterminated function, unparsable line, pre-processor print) closed by a label line. Scale cases (file form): a loop printing 5000 (thorough 100000) lines, a script file of that many lines, the same failing / not parsing on its last line (output and message must match to the byte). Every subprocess is killed after 20 s (reported as a violation when it is duck that does not exit). Includes: 11 files that include other files by absolute path (once, twice, diamonds, nested twice, broken, self-including) through the three run forms (against the library) and lint (accepted iff everything parses); 4 roots with relative includes started from 3 directories, one of which holds decoy files of the same relative names (run against the library; lint accepted iff the real files parse and are lower case). Named files: scripts (succeeding, failing, unparsable) under 13 bare names that spell options, option letters or words the tool knows (version, help, h, e, eval, l, lint, ...), given alone and with a further argument: run as files, against the library";
 pub const ASSUMPTIONS: &[&str] = &["scripts with time- or random-dependent output are not in the pool", "the reference is the same library linked into the harness (differential), so a defect shared by both is invisible here"];
 pub const EXHAUSTIVE: bool = true;
 pub const WALL_CAP_S: (u64, u64) = (58, 600);
